@@ -469,6 +469,20 @@ Proof.
   - apply memb_false in E. simpl. tauto.
 Qed.
 
+Lemma del_idx_In st n e :
+  In e (del_idx succ manifest st n) <->
+  (In e (idx st) /\ snd e <> n) \/
+  (exists d, e = (RDig d, d) /\ In d (danglings succ (gnodes st) n) /\ manifest d = true /\
+             lookup (RDig d) (filter (fun e => negb (snd e =? n)) (idx st)) = None).
+Proof.
+  unfold del_idx. rewrite in_app_iff, in_map_iff, filter_In, negb_true_iff, Nat.eqb_neq. split.
+  - intros [(d & <- & Hd)|H]; [right|left; exact H]. apply filter_In in Hd as [Hd Hc].
+    apply andb_true_iff in Hc as [Hm Hl]. exists d. repeat split; try assumption.
+    destruct (lookup (RDig d) _); [discriminate|reflexivity].
+  - intros [H|(d & -> & Hd & Hm & Hl)]; [right; exact H|left]. exists d. split; [reflexivity|].
+    apply filter_In. split; [assumption|]. rewrite Hm, Hl. reflexivity.
+Qed.
+
 Lemma remove_one_In x y l : In y (remove_one x l) -> In y l.
 Proof.
   induction l as [|a l IH]; simpl; [tauto|]. destruct (Nat.eqb a x); [now right|].
@@ -513,13 +527,20 @@ Definition waiting (proc : list nat) (r : nat) : Prop :=
   In r G /\ is_tagged st0 r = false /\
   exists m, In m proc /\ manifest m = true /\ subject r = Some m.
 
+(* the reference map during the cascade: the entries of the start state whose target is not
+   processed, plus by-digest entries of manifests that lost their last predecessor *)
+Definition idx_rel (ix : list (ref * nat)) (proc : list nat) : Prop :=
+  (forall e, In e ix -> ~ In (snd e) proc /\
+             (In e (idx st0) \/ exists d, e = (RDig d, d) /\ manifest d = true)) /\
+  (forall e, In e (idx st0) -> ~ In (snd e) proc -> In e ix).
+
 Record DInv (st : state) (queue seen proc pending : list nat) : Prop := {
   di_seen : seen = proc ++ queue;
   di_nodup : NoDup seen;
   di_x : In x seen;
   di_g : forall y, In y (gnodes st) <-> In y G /\ ~ In y proc;
   di_b : forall y, In y (blobs st) <-> In y B /\ ~ In y proc;
-  di_i : forall e, In e (idx st) <-> In e (idx st0) /\ ~ In (snd e) proc;
+  di_i : idx_rel (idx st) proc;
   di_a : autogc st = true;
   di_s : strays st = strays st0;
   di_sound : forall y, In y seen -> Gone y;
@@ -533,15 +554,14 @@ Record DInv (st : state) (queue seen proc pending : list nat) : Prop := {
                       (forall p, In p G -> In d (succ p) -> In p proc) -> In d seen }.
 
 Lemma tagged_same st proc y :
-  (forall e, In e (idx st) <-> In e (idx st0) /\ ~ In (snd e) proc) ->
-  ~ In y proc -> is_tagged st y = is_tagged st0 y.
+  idx_rel (idx st) proc -> ~ In y proc -> is_tagged st y = is_tagged st0 y.
 Proof.
-  intros Hi Hy. apply eq_true_iff_eq. rewrite !is_tagged_spec.
+  intros [H1 H2] Hy. apply eq_true_iff_eq. rewrite !is_tagged_spec.
   split; intros (t & [H|H]); exists t.
-  - left. now apply Hi in H.
-  - right. now apply Hi in H.
-  - left. apply Hi. split; [assumption|exact Hy].
-  - right. apply Hi. split; [assumption|exact Hy].
+  - left. destruct (H1 _ H) as [_ [Ho|(d & E & _)]]; [assumption|discriminate].
+  - right. destruct (H1 _ H) as [_ [Ho|(d & E & _)]]; [assumption|discriminate].
+  - left. apply H2; assumption.
+  - right. apply H2; assumption.
 Qed.
 
 Lemma seen_bound seen : NoDup seen -> (forall y, In y seen -> y = x \/ In y G) ->
@@ -595,7 +615,7 @@ Proof.
       cbn [delete_loop]. unfold delete_one. rewrite Hh_b. rewrite (di_a _ _ _ _ _ I).
       cbn [andb fixF3 fixF4 fixLeaf skipLinked fixHold fixEntry cfg_fixed negb orb app].
       set (st' := {| blobs := removeb h (blobs st);
-                     idx := filter (fun e => negb (snd e =? h)) (idx st);
+                     idx := del_idx succ manifest st h;
                      gnodes := removeb h (gnodes st);
                      strays := strays st; autogc := true |}).
       set (refs := if manifest h
@@ -616,12 +636,17 @@ Proof.
       assert (Hfresh : forall y, In y fresh <-> In y dang' /\ ~ In y seen).
       { intro y. unfold fresh. rewrite dedup_In, filter_In, ord_perm.
         rewrite negb_true_iff, memb_false. tauto. }
-      assert (Hidx' : forall e, In e (idx st') <-> In e (idx st0) /\ ~ In (snd e) (proc ++ [h])).
-      { intro e. unfold st'. cbn [idx]. rewrite filter_In, negb_true_iff, Nat.eqb_neq.
-        rewrite (di_i _ _ _ _ _ I), in_app_iff. simpl. split.
-        - intros [[H1 H2] H3]. split; [assumption|]. intros [H|[H|[]]]; [now apply H2|]. congruence.
-        - intros [H1 H2]. split; [split; [assumption|]|]; intro H; apply H2; [now left|].
-          right. left. congruence. }
+      assert (Hidx' : idx_rel (idx st') (proc ++ [h])).
+      { destruct (di_i _ _ _ _ _ I) as [Hi1 Hi2]. unfold st'. cbn [idx]. split.
+        - intros e He. apply del_idx_In in He as [[He Hne]|(d & -> & Hd & Hm & _)].
+          + destruct (Hi1 e He) as [Hp Ho]. split; [|exact Ho].
+            rewrite in_app_iff. simpl. intros [H|[H|[]]]; [contradiction|congruence].
+          + apply danglings_In in Hd as (_ & Hs & Hg & _). apply (di_g _ _ _ _ _ I) in Hg.
+            apply succ_lt in Hs. split; [|right; eauto].
+            rewrite in_app_iff. simpl. intros [H|[H|[]]]; [tauto|lia].
+        - intros e He Hp. apply del_idx_In. left. rewrite in_app_iff in Hp. simpl in Hp. split.
+          + apply Hi2; [assumption|]. intro H. apply Hp. now left.
+          + intro H. apply Hp. right. left. congruence. }
       assert (Hrefs : forall r, In r refs <->
                 manifest h = true /\ In r (gnodes st) /\ subject r = Some h /\ is_tagged st0 r = false).
       { intro r. unfold refs. destruct (manifest h).
@@ -765,7 +790,7 @@ Proof.
   - now left.
   - tauto.
   - tauto.
-  - tauto.
+  - split; [intros e He; split; [tauto|now left]|intros e He _; exact He].
   - assumption.
   - intros y [<-|[]]. constructor.
   - intros y [<-|[]]. now left.
@@ -796,7 +821,9 @@ Lemma delete_exact_sec :
     delete succ subject manifest cfg_fixed ord st0 x = (st', Ok) /\
     (forall y, In y (blobs st') <-> In y B /\ ~ Gone y) /\
     (forall y, In y (gnodes st') <-> In y G /\ ~ Gone y) /\
-    (forall e, In e (idx st') <-> In e (idx st0) /\ ~ Gone (snd e)) /\
+    ((forall e, In e (idx st') -> ~ Gone (snd e) /\
+        (In e (idx st0) \/ exists d, e = (RDig d, d) /\ manifest d = true)) /\
+     (forall e, In e (idx st0) -> ~ Gone (snd e) -> In e (idx st'))) /\
     strays st' = strays st0 /\ autogc st' = autogc st0.
 Proof.
   unfold delete. cbn [fixF4 cfg_fixed]. unfold delete_fuel.
@@ -811,9 +838,9 @@ Proof.
   - apply (di_g _ _ _ _ _ I) in H. tauto.
   - apply (di_g _ _ _ _ _ I) in H as [_ H]. now rewrite <- HG.
   - intros [H1 H2]. apply (di_g _ _ _ _ _ I). rewrite HG. tauto.
-  - apply (di_i _ _ _ _ _ I) in H. tauto.
-  - apply (di_i _ _ _ _ _ I) in H as [_ H]. now rewrite <- HG.
-  - intros [H1 H2]. apply (di_i _ _ _ _ _ I). rewrite HG. tauto.
+  - rewrite <- HG. now apply (proj1 (di_i _ _ _ _ _ I)) in H.
+  - now apply (proj1 (di_i _ _ _ _ _ I)) in H.
+  - intros e He Hn. apply (proj2 (di_i _ _ _ _ _ I)); [assumption|]. now rewrite HG.
   - apply (di_s _ _ _ _ _ I).
   - rewrite (di_a _ _ _ _ _ I). now rewrite auto_on.
 Qed.
@@ -845,7 +872,7 @@ Lemma delete_plain st x ord :
   exists st',
     delete succ subject manifest cfg_fixed ord st x = (st', Ok) /\
     blobs st' = removeb x (blobs st) /\ gnodes st' = removeb x (gnodes st) /\
-    idx st' = filter (fun e => negb (Nat.eqb (snd e) x)) (idx st) /\
+    idx st' = del_idx succ manifest st x /\
     strays st' = strays st /\ autogc st' = autogc st.
 Proof.
   intros Ho Ha Hx. apply memb_In in Hx. unfold delete, delete_fuel. cbn [fixF4 cfg_fixed].
@@ -854,7 +881,8 @@ Proof.
   { destruct (ord 0 []) as [|a l] eqn:E; [reflexivity|].
     exfalso. assert (H : In a (ord 0 [])) by (rewrite E; now left).
     apply Ho in H. destruct H. }
-  rewrite E. simpl. eexists. split; [reflexivity|]. simpl. repeat split.
+  rewrite E. cbn [app dedup filter delete_loop]. eexists. split; [reflexivity|].
+  cbn [blobs gnodes idx strays autogc]. repeat split.
 Qed.
 
 (* absent target: not found *)
@@ -873,14 +901,14 @@ Lemma delete_absent_state st x ord c :
   ~ In x (blobs st) ->
   fst (delete succ subject manifest c ord st x) =
   {| blobs := removeb x (blobs st);
-     idx := filter (fun e => negb (snd e =? x)) (idx st);
+     idx := del_idx succ manifest st x;
      gnodes := removeb x (gnodes st);
      strays := strays st; autogc := autogc st |}.
 Proof.
   intro Hx. apply memb_false in Hx. unfold delete.
   assert (H : forall f, fst (delete_loop succ subject manifest c ord (S f) 0 st [x] [x] []) =
     {| blobs := removeb x (blobs st);
-       idx := filter (fun e => negb (snd e =? x)) (idx st);
+       idx := del_idx succ manifest st x;
        gnodes := removeb x (gnodes st);
        strays := strays st; autogc := autogc st |}).
   { intro f. cbn [delete_loop]. unfold delete_one. rewrite Hx. reflexivity. }
@@ -903,7 +931,7 @@ Proof.
   cbn [delete_loop]. destruct queue as [|h q]; [exact Hw|].
   unfold delete_one.
   assert (Hw' : wf {| blobs := removeb h (blobs st);
-                      idx := filter (fun e => negb (snd e =? h)) (idx st);
+                      idx := del_idx succ manifest st h;
                       gnodes := removeb h (gnodes st);
                       strays := strays st; autogc := autogc st |}).
   { intros y Hy. simpl in *. apply removeb_In in Hy as [Hy Hn]. apply removeb_In. split; auto. }
@@ -920,7 +948,9 @@ Proof.
        apply closure_spec in Hy. eapply Reach_in; eauto. }
   - unfold push. destruct (memb n (blobs st)); [exact Hw|]. intros y Hy. simpl in *.
     destruct Hy as [->|Hy]; [now left|]. right. apply removeb_In in Hy as [Hy _]. auto.
-  - unfold tag. destruct (memb n (blobs st)); exact Hw.
+  - unfold tag. destruct (memb n (blobs st)) eqn:E; [|exact Hw]. intros y Hy.
+    cbn [fst gnodes blobs] in *. destruct (manifest n); [|now apply Hw].
+    destruct Hy as [->|Hy]; [now apply memb_In|]. apply removeb_In in Hy as [Hy _]. now apply Hw.
   - unfold untag. destruct (lookup (RTag t) (idx st)); exact Hw.
   - unfold delete. apply delete_loop_wf. exact Hw.
   - destruct (gc_exact kl (fun _ => candidates (idx st)) st ltac:(tauto)) as (st' & Hg & Hn & Hb & _).
@@ -998,10 +1028,10 @@ Proof.
   cbn [delete_loop]. destruct queue as [|h q]; [exact Hw|].
   unfold delete_one.
   assert (Hw' : no_stale {| blobs := removeb h (blobs st);
-                            idx := filter (fun e => negb (snd e =? h)) (idx st);
+                            idx := del_idx succ manifest st h;
                             gnodes := removeb h (gnodes st);
                             strays := strays st; autogc := autogc st |}).
-  { intros t n H. simpl in H. apply filter_In in H as [H _]. now apply (Hw t n). }
+  { intros t n H. cbn [idx] in H. apply del_idx_In in H as [[H _]|(d & E & _)]; [now apply (Hw t n)|discriminate]. }
   destruct (memb h (blobs st)); [|exact Hw'].
   apply IH. exact Hw'.
 Qed.
@@ -1066,7 +1096,7 @@ Proof.
   cbn [delete_loop]. destruct queue as [|h q]; [exact Hw|].
   unfold delete_one.
   assert (Hw' : full {| blobs := removeb h (blobs st);
-                        idx := filter (fun e => negb (snd e =? h)) (idx st);
+                        idx := del_idx succ manifest st h;
                         gnodes := removeb h (gnodes st);
                         strays := strays st; autogc := autogc st |}).
   { intros y Hy. simpl in *. apply removeb_In in Hy as [Hy Hn]. apply removeb_In. split; auto. }
@@ -1127,7 +1157,9 @@ Proof.
     + unfold push. destruct (memb n (blobs st)); [exact IH|]. intros y Hy. simpl in *.
       destruct (Nat.eq_dec y n) as [->|Hne]; [now left|]. right. apply removeb_In.
       split; [|assumption]. destruct Hy as [->|Hy]; [contradiction|now apply IH].
-    + unfold tag. destruct (memb n (blobs st)); exact IH.
+    + unfold tag. destruct (memb n (blobs st)); [|exact IH]. intros y Hy.
+      cbn [fst gnodes blobs] in *. destruct (manifest n); [|now apply IH].
+      destruct (Nat.eq_dec y n) as [->|Hne]; [now left|]. right. apply removeb_In. split; [now apply IH|assumption].
     + unfold untag. destruct (lookup (RTag t) (idx st)); exact IH.
     + exact IH.
     + exact IH.
@@ -1376,20 +1408,31 @@ Lemma delete_exact_final : forall succ subject manifest,
     delete succ subject manifest cfg_fixed ord st x = (st', Ok) /\
     (forall y, In y (blobs st') <-> In y (blobs st) /\ ~ Gone succ subject manifest st x y) /\
     (forall y, In y (gnodes st') <-> In y (gnodes st) /\ ~ Gone succ subject manifest st x y) /\
-    (forall r n, In (r, n) (idx st') <-> In (r, n) (idx st) /\ ~ Gone succ subject manifest st x n) /\
-    (forall t n, In (RTag t, n) (idx st) -> n <> x -> In (RTag t, n) (idx st')) /\
+    (forall r n, In (r, n) (idx st') ->
+       ~ Gone succ subject manifest st x n /\ (In (r, n) (idx st) \/ (r = RDig n /\ manifest n = true))) /\
+    (forall r n, In (r, n) (idx st) -> ~ Gone succ subject manifest st x n -> In (r, n) (idx st')) /\
+    (forall t n, In (RTag t, n) (idx st') <-> In (RTag t, n) (idx st) /\ n <> x) /\
     (forall r, ~ In (r, x) (idx st')) /\
     strays st' = strays st /\ autogc st' = autogc st.
 Proof.
   intros succ subject manifest H1 H2 st x Hw Ha Hx ord Ho.
   destruct (delete_exact_sec succ subject manifest H1 H2 st x Hw Ha Hx ord Ho)
-    as (st' & Hd & A & B & C & D & E).
-  exists st'. split; [exact Hd|]. split; [exact A|]. split; [exact B|].
-  split; [intros r n; exact (C (r, n))|]. split; [|split; [|split; [exact D|exact E]]].
-  - intros t n Ht Hn. apply (C (RTag t, n)). split; [assumption|]. simpl. intro HG.
+    as (st' & Hd & A & B & [C1 C2] & D & E).
+  assert (Htag : forall t n, In (RTag t, n) (idx st) -> n <> x -> ~ Gone succ subject manifest st x n).
+  { intros t n Ht Hn HG.
     pose proof (gone_untagged succ subject manifest st x n HG Hn) as Hf.
-    assert (Ht' : is_tagged st n = true) by (apply is_tagged_spec; eauto). congruence.
-  - intros r H. apply (C (r, x)) in H as [_ H]. apply H. constructor.
+    assert (Ht' : is_tagged st n = true) by (apply is_tagged_spec; eauto). congruence. }
+  exists st'. split; [exact Hd|]. split; [exact A|]. split; [exact B|].
+  split; [|split; [|split; [|split; [|split; [exact D|exact E]]]]].
+  - intros r n H. destruct (C1 (r, n) H) as [Hg [Ho'|(d & Ed & Hm)]]; (split; [exact Hg|]).
+    + now left.
+    + right. injection Ed as -> ->. split; [reflexivity|assumption].
+  - intros r n H Hg. exact (C2 (r, n) H Hg).
+  - intros t n. split.
+    + intro H. destruct (C1 (RTag t, n) H) as [Hg [Ho'|(d & Ed & _)]]; [|discriminate].
+      split; [assumption|]. intro E'. subst. apply Hg. constructor.
+    + intros [H Hn]. apply (C2 (RTag t, n) H). simpl. eapply Htag; eauto.
+  - intros r H. destruct (C1 (r, x) H) as [Hg _]. apply Hg. constructor.
 Qed.
 
 Lemma delete_terminates_final : forall succ subject manifest,
@@ -1422,7 +1465,7 @@ Lemma delete_plain_final : forall succ subject manifest st x ord,
   exists st',
     delete succ subject manifest cfg_fixed ord st x = (st', Ok) /\
     blobs st' = removeb x (blobs st) /\ gnodes st' = removeb x (gnodes st) /\
-    idx st' = filter (fun e => negb (Nat.eqb (snd e) x)) (idx st) /\
+    idx st' = del_idx succ manifest st x /\
     strays st' = strays st /\ autogc st' = autogc st.
 Proof. intros. now apply delete_plain. Qed.
 
@@ -1472,7 +1515,7 @@ Lemma delete_absent_final : forall succ subject manifest st x ord c,
   snd (delete succ subject manifest c ord st x) = ENotFound /\
   blobs (fst (delete succ subject manifest c ord st x)) = blobs st /\
   gnodes (fst (delete succ subject manifest c ord st x)) = removeb x (gnodes st) /\
-  idx (fst (delete succ subject manifest c ord st x)) = filter (fun e => negb (Nat.eqb (snd e) x)) (idx st).
+  idx (fst (delete succ subject manifest c ord st x)) = del_idx succ manifest st x.
 Proof.
   intros succ subject manifest st x ord c Hx. split; [now apply delete_absent|].
   rewrite (delete_absent_state succ subject manifest st x ord c Hx). cbn [blobs gnodes idx].
